@@ -426,6 +426,9 @@ class Body:
                 if t[0] == 'agg' and isinstance(t[3], list) and f.isdigit() and int(f) < len(t[3]) and t[1] == 'tuple':
                     t = t[3][int(f)]
                     continue
+                if t[0] == 'agg' and t[1] == 'closure' and isinstance(t[3], list) and pr.get('i') is not None and pr['i'] < len(t[3]):
+                    t = t[3][pr['i']]
+                    continue
                 t = ('f', t, f)
             elif 'idx' in pr:
                 t = ('idx', t, self.local_term(pr['idx'], depth + 1, at, expand))
@@ -1330,6 +1333,8 @@ class Facts:
         self.__dict__.pop('_getters', None)
         _canonical_params(self.j)
         _canonical_fields(self.j)
+        from .desugar import desugar_all
+        self.desugared = desugar_all(self.j)
         self.bodies = {}
         for b in self.j['bodies']:
             self.bodies[b['path']] = Body(b, self)
